@@ -302,6 +302,127 @@ def union_worker(args):
     return res
 
 
+# ---- the wait itself: the real Clock.wait_until against a wall clock that keeps moving ---------------
+def clockwait_worker(args):
+    """Clock.wait_until(pattern) with datetime.now() a stub returning arbitrary non-decreasing instants (a symbolic
+    minute of the day; every reading may come 0..2 minutes after the previous one).  When the wait ends, the time the
+    pattern was matched against must be a time the wall clock actually showed at one of its readings, and the pattern
+    must denote it."""
+    import bardolph.lib.clock as clock_mod
+    res = report.WorkResult('clock wait %s' % args['label'])
+    world.start_function_trace()
+    res.sites.add('clock-wait')
+    POLLS = args['polls']
+
+    for alts in args['lists']:
+        text = 'time at %s on all' % ' or '.join(alts)
+
+        def harness(ctx, plain=None):
+            waits, net, prog = run_script_patterns(text)
+            if waits is None or len(waits) != 1:
+                return None
+            tp = waits[0]
+            if plain is None:
+                wrap_sets(tp)
+            readings = []
+            state = {'t': ctx.int('t0', 0, 1439) if plain is None else plain['t0'], 'n': 0}
+
+            class Now:
+                def __init__(self, t):
+                    self.hour = (t // 60) % 24
+                    self.minute = t % 60
+
+            class DT:
+                @staticmethod
+                def now():
+                    state['n'] += 1
+                    if state['n'] > 1:
+                        d = ctx.int('dt_%d' % state['n'], 0, 2) if plain is None else plain.get('dt_%d' % state['n'], 0)
+                        state['t'] = state['t'] + d
+                    readings.append(state['t'])
+                    return Now(state['t'])
+
+            class Ev:
+                polls = 0
+                def wait(self, timeout=None):
+                    Ev.polls += 1
+                    if Ev.polls > POLLS:
+                        raise symx.Abort('poll bound')
+                    return True
+                def set(self): pass
+                def clear(self): pass
+
+            class NoThreads:
+                class Thread:
+                    def __init__(self, *a, **k): pass
+                    def start(self): pass
+                Event = Ev
+            used = []
+            orig = tp.match
+
+            def spy(h, m):
+                r = orig(h, m)
+                used.append((h, m, r))
+                return r
+            tp.match = spy
+            saved = (clock_mod.datetime, clock_mod.threading)
+            clock_mod.datetime, clock_mod.threading = DT, NoThreads
+            try:
+                c = clock_mod.Clock()
+                c._event = Ev()
+                c.wait_until(tp)
+            finally:
+                clock_mod.datetime, clock_mod.threading = saved
+            return readings, used
+        n_paths = 0
+        for ctx, out in symx.explore(harness, max_paths=args['max_paths'], timeout_ms=5000, stats=res.stats):
+            if isinstance(out, symx.Abort):
+                res.out_of_bound += 1
+                continue
+            if out is None:
+                break
+            readings, used = out
+            n_paths += 1
+            res.nontrivial += 1
+            if not used:
+                continue
+            h, m, r = used[-1]
+            T = lambda x: z3.ToInt(symx.term(x))
+            shown = z3.Or(*[z3.And(T(h) == (T(t) / 60) % 24, T(m) == T(t) % 60) for t in readings])
+            spec = z3.Or(*[denotes(a, T(h), T(m)) for a in alts])
+            verdict, model = ctx.prove(z3.And(shown, spec))
+            res.reached.add('clock-wait')
+            if verdict == 'unsat':
+                continue
+            if verdict == 'unknown':
+                res.inconclusive.append(text)
+                continue
+            mv = {k: int(v) for k, v in ctx.model_values(model).items() if not isinstance(v, bool)}
+            saved_ctx = symx.Ctx.cur
+            symx.Ctx.cur = None
+            try:
+                try:
+                    rd, us = harness(None, plain=mv)
+                except symx.Abort:
+                    rd, us = [], []
+            finally:
+                symx.Ctx.cur = saved_ctx
+            ok = False
+            desc = ''
+            if us:
+                hh, mm, _ = us[-1]
+                shown_c = any((hh, mm) == ((t // 60) % 24, t % 60) for t in rd)
+                den = any((hh, mm) in set(spec_times(a)) for a in alts)
+                ok = not (shown_c and den)
+                desc = 'the wait ended on %d:%02d; wall clock readings were %s' % (hh, mm, ['%d:%02d' % ((t // 60) % 24, t % 60) for t in rd])
+            res.violation('clock-wait|%s' % ('time-never-shown' if us and not shown_c else 'time-not-denoted'),
+                          '%s: %s' % (text, desc), inputs={'script': text, 'values': mv}, replayed=ok)
+            break
+    res.sample({'lists': [' or '.join(a) for a in args['lists'][:3]], 'polls': POLLS})
+    res.functions = world.functions_seen()
+    return res
+
+
 def table(tp):
     return frozenset((h, m) for h in range(24) for m in range(60) if tp.match(h, m))
 
@@ -349,7 +470,7 @@ def aliasing_worker(args):
 
 
 def dispatch(args):
-    return {'regex': regex_worker, 'denotation': denotation_worker, 'union': union_worker, 'aliasing': aliasing_worker}[args['kind']](args)
+    return {'regex': regex_worker, 'denotation': denotation_worker, 'union': union_worker, 'aliasing': aliasing_worker, 'clockwait': clockwait_worker}[args['kind']](args)
 
 
 def run(tier, seed):
@@ -383,6 +504,9 @@ def run(tier, seed):
     for i in range(0, len(lists), 150):
         items.append({'kind': 'union', 'label': str(i // 150), 'lists': lists[i:i + 150]})
     items.append({'kind': 'aliasing', 'pairs': [('8:00', '9:30'), ('*:15', '2*:45'), ('1:*5', '*:00')] + pairs[:20]})
+    cw = [('8:00',), ('*:00',), ('*3:00',), ('8:00', '13:4*'), ('0:00',), ('*:*5',), ('2*:5*', '0:0*')] + [tuple(x) for x in lists[:10 if tier == 'quick' else 300]]
+    for i in range(0, len(cw), 4):
+        items.append({'kind': 'clockwait', 'label': str(i // 4), 'lists': cw[i:i + 4], 'polls': 2 if tier == 'quick' else 3, 'max_paths': 400 if tier == 'quick' else 4000})
     results, skipped = report.run_pool(dispatch, items, budget_s=common.tier_budget(tier, 75, 900))
     fb = sum(r.extra.get('fallback_concrete', 0) for r in results)
     return report.finish(
